@@ -45,13 +45,13 @@ def _args(shape, a, b, c, n, flag):
         i += 1
     for k in kinds:
         if k == 'L':
-            out.append([a, b, c][:n])
+            out.append([a, b, c, a, b][:n])
         elif k == 'N':
             out.append([[a], [b, c]])
         elif k == 'D':
             out.append({'p': a, 'q': [b]})
         elif k == 'l':
-            out.append([3, 1, 2][:n])
+            out.append([3, 1, 2, 5, 4][:n])
         elif k == 'n':
             out.append([[3], [1, 2]])
         elif k == 'd':
@@ -84,12 +84,13 @@ def _args(shape, a, b, c, n, flag):
 
 def nonmut(a: int, b: int, c: int, n: int, flag: bool, d1: int, d2: int, d3: int) -> None:
     """
-    pre: 0 <= n <= 3
+    pre: 0 <= n <= 5
     post: True
     """
     hlib.enter(locals())
     name, shape = hlib.PARAM["fn"], hlib.PARAM["shape"]
-    n = hlib.concrete(n, 0, 3)
+    hlib.assume(hlib.deep() or n <= 3)
+    n = hlib.concrete(n, 0, 5)
     args = _args(shape, a, b, c, n, flag)
     snap = _copy.deepcopy([x for x in args if isinstance(x, (list, dict))])
     saved = functions.random
@@ -119,12 +120,13 @@ if isinstance(hlib.PARAM, dict) and "pipe" in hlib.PARAM:
 
 def pipeline(a: int, b: int, c: int, n: int, d1: int, d2: int, d3: int) -> None:
     """
-    pre: 0 <= n <= 3
+    pre: 0 <= n <= 5
     post: True
     """
     hlib.enter(locals())
-    n = hlib.concrete(n, 0, 3)
-    l = [a, b, c][:n]
+    hlib.assume(hlib.deep() or n <= 3)
+    n = hlib.concrete(n, 0, 5)
+    l = [a, b, c, a, b][:n]
     nn = [[a], [b, c]]
     d = {'p': a, 'q': [b, c]}
     cn, cd = [[3], [1, 2]], {'p': 3, 'q': [1, 2]}
